@@ -130,6 +130,16 @@ CHECKS = {
     design_ref="DESIGN.md sections 6 (C14) and 7.1", note=_MEM_NOTE,
     technique="Coq proof: every result theorem has the form '= Ok ...' over a model with explicit panics; checked-arithmetic obligation on the prefilter state + debug/overflow-check build under catch_unwind",
  ),
+ "C15": dict(
+    text="C15_dispatch: an interleaving model of the unsafe_ifunc! cell (atomic steps: load FN, [detect,] store, call; loads may observe ANY value "
+         "stored so far): for every number of threads, every list of calls per thread, every schedule, every choice of observed values and every "
+         "CPU, each completed call returns exactly its isolated (= specification) result (invariant: the store only ever holds `detect` or the one "
+         "implementation chosen for this CPU, C15_single_choice; plus C01/C02 for that implementation). Shared finders are immutable values "
+         "(C16). PARTIAL by nature: the model cannot exhibit data races, torn reads or weak-memory effects on non-atomic data; those are only "
+         "sampled by the runtime part (fresh processes, barrier-released threads, forced CPU variants).",
+    design_ref="DESIGN.md section 6 (C15)", note=_MEM_NOTE + " Not modelled: the Rust memory model beyond per-location coherence, unsafe impl Send/Sync for Iter.",
+    technique="Coq proof over all interleavings of an atomic-step model of the dispatch cell (partial: no weak-memory/data-race semantics) + fresh-process multi-thread differential runs",
+ ),
  "C16": dict(
     text="C16_reuse / C16_reuse_rev (unconditional): for a finder built from x, EVERY later search over ANY list of haystacks, from ANY prefilter "
          "state, returns find_spec x h (rfind_spec): the answer depends on the needle and that haystack only; C16_needle: needle() is the "
